@@ -63,26 +63,9 @@ ASSUMPTIONS = [
 ]
 
 
-def _tkey_case(case):
-    """final segment T[key] / S..[key] on a dict that lacks the key, parent present"""
-    st = case['steps'][-1]
-    return case['kind'] == 'delete' and st['op'] == '['
-
-
 def match_finding(f, info):
-    """Known findings of C12 (narrow: call site + input predicate + the exact deviation)."""
-    m = f.get('match', {})
-    case, exp, obs = info.get('case'), info.get('exp'), info.get('obs')
-    if not case or case.get('kind') != 'delete' or not obs:
-        return False
-    if m.get('kind') == 'tkey-missing':
-        # Delete._del_one, op '[': only IndexError is read as "missing"; a KeyError of a mapping escapes
-        if not (_tkey_case(case) and not obs['ok'] and obs['cls'] == 'KeyError'):
-            return False
-        if exp is not None:
-            return (exp['err'] == 'PathDeleteError' and info.get('clause') == 'error-class') or \
-                   (exp['ok'] and case['ignore'] and info.get('clause') == 'unexpected-error')
-        return info.get('clause') in ('error-class', 'unexpected-error')
+    """No known finding is open for C12 (the historic T[key] defect is repaired in glom, ee4e325, and
+    lives on as the spec mutant catch_index_only): every disagreement is a VIOLATION."""
     return False
 
 
